@@ -217,6 +217,14 @@ def check(chk):
         w = None if pre else cfg.must_pass(start, [n.id for n in nodes], ends=[cfg.exit.id])
         chk.ob("DOM-15", "Mode.%s always runs %s" % (fn, step), bool(nodes) and w is None, f.where(), path=cfg.fmt_path(w, MD) if w else None,
                construct=f.ident, text="%s in %s" % (step, fn))
+    f = m["_mode_stopped_callback"]
+    cfg = f.cfg()
+    cleanup = [n for n, c in cfg.calls_named("_remove_mode_event_handlers", "_remove_mode_devices") if src(c.func.value) == "self"]
+    cb_calls = [n for n in cfg.nodes if n.kind != "branch" and any(isinstance(c.func, ast.Name) and c.func.id in ("callback", "cb") for c in n.calls())]
+    ok = bool(cleanup) and bool(cb_calls) and all(cfg.path_avoiding(cb.id, [cl.id], [], ignore_exc=True) is None for cb in cb_calls for cl in cleanup)
+    chk.ob("DOM-15", "the stop callbacks run after the mode's handlers and devices are gone (a callback may start the mode again)", ok, f.where(),
+           detail="clean-up after the callbacks wipes what a restart from a callback has just registered", construct=f.ident,
+           text="stop callbacks before clean-up")
     f = m["_stopped"]
     cfg = f.cfg()
     loops = [h for h in cfg.nodes if h.kind == "loop" and src(h.ast.iter) == "self.stop_methods"]
@@ -234,8 +242,13 @@ def check(chk):
         cfg = f.cfg()
         rs = [n for n in cfg.nodes_where(lambda n: n.kind == "stmt" and isinstance(n.ast, ast.Assign) and src(n.ast.targets[0]) == cont)] + \
              [n for n, c in cfg.calls_named("clear") if src(c.func.value) == cont]
-        lp = [h for h in cfg.nodes if h.kind == "loop" and src(h.ast.iter) in (cont, "list(%s)" % cont, "%s[:]" % cont)]
-        ok = bool(rs) and bool(lp) and all(cfg.dominates(h.id, r.id) for h in lp for r in rs) and \
+        aliases_ = {x.targets[0].id for x in ast.walk(f.node) if isinstance(x, ast.Assign) and isinstance(x.targets[0], ast.Name)
+                    and src(x.value) in (cont, "list(%s)" % cont, "%s[:]" % cont, "set(%s)" % cont)}
+        lp_live = [h for h in cfg.nodes if h.kind == "loop" and src(h.ast.iter) == cont]
+        lp_copy = [h for h in cfg.nodes if h.kind == "loop" and (src(h.ast.iter) in ("list(%s)" % cont, "%s[:]" % cont) or src(h.ast.iter) in aliases_)]
+        lp = lp_live + lp_copy
+        # walking the live container: it is emptied afterwards; walking a copy / a swapped-out alias: the order is free
+        ok = bool(rs) and bool(lp) and all(cfg.dominates(h.id, r.id) for h in lp_live for r in rs) and \
             cfg.must_pass(cfg.entry.id, [r.id for r in rs]) is None
         chk.ob("DOM-15", "Mode.%s visits every entry of %s and then empties it" % (fn, cont), ok, f.where(), construct=f.ident,
                text="reset of " + cont)
@@ -448,6 +461,22 @@ def check(chk):
     ok = any(isinstance(x, ast.Assign) and src(x.targets[0]) == "self.mode" and src(x.value) == "mode" for x in walk_local(bl.node)) and \
         any(isinstance(x, ast.Assign) and src(x.targets[0]) == "self.mode" and src(x.value) == "None" for x in walk_local(br.node))
     chk.ob("PAIR-9", "ModeDevice remembers its mode while loaded and forgets it afterwards", ok, bl.where(), construct=md.ident, text="mode ref pairing")
+    # mode devices that run something periodic / delayed of their own stop it on every path when the mode unloads them
+    for c_ in repo.subclasses(md, strict=False):
+        own_activity = [m_ for m_ in c_.methods.values() if any(call_attr(x) in ("schedule_interval", "schedule_once") for x in m_.calls())]
+        if not own_activity or "stop" not in c_.methods:
+            continue
+        dr_ = repo.lookup_method(c_, "device_removed_from_mode")
+        if dr_ is None or dr_.cls is md:
+            chk.ob("PAIR-9", "%s (runs a periodic task) is stopped when its mode unloads it" % c_.name, False, c_.where(), construct=c_.ident,
+                   text="no unload hook in " + c_.name)
+            continue
+        dcfg = dr_.cfg()
+        stops = [n.id for n, cc in dcfg.calls_named("stop") if src(cc.func.value) == "self"]
+        ok_ = bool(stops) and dcfg.must_pass(dcfg.entry.id, stops) is None
+        chk.ob("PAIR-9", "%s stops its periodic task / pending delays on every path when the mode unloads it" % c_.name, ok_, dr_.where(),
+               detail="a conditional stop leaves a paused or pending timer behind that restarts itself after the mode is gone",
+               construct=dr_.ident, text="unconditional stop on unload in " + c_.name)
 
     # ------------------------------------------------------------ FLAG-5
     for rel, cn in ((ED, "EnableDisableMixin"), (ED, "EnableDisableMixinSystemWideDevice")):
@@ -567,6 +596,9 @@ def battery():
         M("stop methods skipped when no callback", MD, "        for item in self.stop_methods:\n            item[0](item[1])", "        for item in (self.stop_methods if self.stop_callbacks else []):\n            item[0](item[1])", "DOM-15"),
         M("event player keeps condition state", EP, "    def clear_context(self, context):\n        \"\"\"Forget the condition values seen in this context.\"\"\"\n        self._reset_instance_dict(context)\n\n", "", "SIB-1"),
         M("light player keeps its records after clear", "mpf/config_players/light_player.py", "            light.remove_from_stack_by_key(full_context)\n\n        self._reset_instance_dict(context)", "            light.remove_from_stack_by_key(full_context)\n", "SIB-1"),
+        M("stop callbacks run before the clean-up", MD, "        # Clean up the mode handlers and devices\n        self._remove_mode_event_handlers()\n        self._remove_mode_devices()\n\n        for callback in self.stop_callbacks:\n            callback()\n\n        self.stop_callbacks = []", "        for callback in self.stop_callbacks:\n            callback()\n\n        self.stop_callbacks = []\n\n        # Clean up the mode handlers and devices\n        self._remove_mode_event_handlers()\n        self._remove_mode_devices()", "DOM-15"),
+        M("twin: stop callbacks swapped out before they run", MD, "        for callback in self.stop_callbacks:\n            callback()\n\n        self.stop_callbacks = []", "        stop_callbacks = self.stop_callbacks\n        self.stop_callbacks = []\n        for callback in stop_callbacks:\n            callback()", None),
+        M("timer stopped only when running at unload", "mpf/devices/timer.py", "        \"\"\"Stop this timer and also removes all the control events.\"\"\"\n        self.stop()", "        \"\"\"Stop this timer and also removes all the control events.\"\"\"\n        if self.running:\n            self.stop()", "PAIR-9"),
         M("mode switch handlers not removed", MD, "        for handler in self.switch_handlers:\n            self.machine.switch_controller.remove_switch_handler_by_key(handler)\n", "", "DOM-15"),
         M("mode switch handlers: loop without removal", MD, "            self.machine.switch_controller.remove_switch_handler_by_key(handler)\n", "            pass\n", "DOM-15"),
         M("mode handler kwargs dropped", MD, "self.priority + priority, mode=self, **kwargs)", "self.priority + priority, mode=self)", "OWN-7"),
